@@ -1,10 +1,12 @@
 (* Eco/Debian/Range.v — model of pkg/ecosystem/debian/range.go *)
 From Verif.Base Require Import Bytes GoNum Ord.
+From Verif.Gen Require Operators.
 From Verif.Eco Require Import RangeCore.
 
 (* operators := []string{">=", "<=", ">>", "<<", "!=", ">", "<", "="} in parseConstraint *)
+(* the list is generated from the Go source on every run (tools/gen -> Gen/Operators.v) *)
 Definition debian_ops : list bytes :=
-  [$">="; $"<="; $">>"; $"<<"; $"!="; $">"; $"<"; $"="].
+  Eval cbv delta [Verif.Gen.Operators.debian_ops] in Verif.Gen.Operators.debian_ops.
 
 (* the switch in satisfiesConstraint *)
 Definition debian_sem (op : bytes) : cop :=
